@@ -444,6 +444,8 @@ def parent_main(a):
     )
     if a.verbose:
         print(json.dumps(coverage["counters"], indent=1))
+        for n in notes[:20]:
+            print("note:", n)
     return rc
 
 
